@@ -264,6 +264,33 @@ theorem walk_linked (va : Nat) : walk (linked m tbl i f fl) p4 va = walk m p4 va
     exact gen 4 p4 [] rfl rfl (fun _ h => by cases h) (Or.inr (by simpa [vaPath] using hva))
 
 include hinv hr hrl hri hi hzero hfresh hfl in
+/-- Linking a fresh zeroed table keeps `EntriesOK` (the link is present, the new table is zero). -/
+theorem EntriesOK_linked (X : Nat → Word → Prop) (h : EntriesOK X m p4) :
+    EntriesOK X (linked m tbl i f fl) p4 := by
+  have htf : tbl ≠ f := fun h => hfresh.notTable r (by omega) hri (h ▸ hr)
+  obtain ⟨b1, b2, b3, _, b5⟩ := link_bits f fl hfresh.fits hfl
+  have T := tblAt_linked m p4 hinv r tbl i f fl hr hrl hri hi hzero hfresh hfl
+  intro q g j hq hqi hg hj hne
+  rw [T q hq hqi] at hg
+  by_cases eq : q = r ++ [i]
+  · rw [if_pos eq] at hg
+    have : g = f := (Option.some.inj hg).symm
+    subst this
+    rw [linked_at_new m tbl i g fl j hj] at hne
+    exact absurd rfl hne
+  · rw [if_neg eq] at hg
+    split at hg
+    · cases hg
+    · have hgf : g ≠ f := fun h => hfresh.notTable q hq hqi (h ▸ hg)
+      by_cases hw : g = tbl ∧ j = i
+      · obtain ⟨h1, h2⟩ := hw
+        subst h1; subst h2
+        rw [linked_at_slot m g j f fl htf]
+        exact Or.inl b1
+      · rw [linked_other m tbl i f fl g j hgf hw] at hne ⊢
+        exact h q g j hq hqi hg hj hne
+
+include hinv hr hrl hri hi hzero hfresh hfl in
 /-- Linking a fresh zeroed table preserves the invariant. -/
 theorem Inv_linked : Inv (linked m tbl i f fl) p4 := by
   have htf : tbl ≠ f := fun h => hfresh.notTable r (by omega) hri (h ▸ hr)
@@ -289,25 +316,7 @@ theorem Inv_linked : Inv (linked m tbl i f fl) p4 := by
       · split at hgb
         · cases hgb
         · exact hinv.wf a b g ha hb hai hbi hga hgb
-  · intro q g j hq hqi hg hj hne
-    rw [T q hq hqi] at hg
-    by_cases eq : q = r ++ [i]
-    · rw [if_pos eq] at hg
-      have : g = f := (Option.some.inj hg).symm
-      subst this
-      rw [linked_at_new m tbl i g fl j hj] at hne
-      exact absurd rfl hne
-    · rw [if_neg eq] at hg
-      split at hg
-      · cases hg
-      · have hgf : g ≠ f := fun h => hfresh.notTable q hq hqi (h ▸ hg)
-        by_cases hw : g = tbl ∧ j = i
-        · obtain ⟨h1, h2⟩ := hw
-          subst h1; subst h2
-          rw [linked_at_slot m g j f fl htf]
-          exact b1
-        · rw [linked_other m tbl i f fl g j hgf hw] at hne ⊢
-          exact hinv.pres q g j hq hqi hg hj hne
+  · exact EntriesOK_linked m p4 hinv r tbl i f fl hr hrl hri hi hzero hfresh hfl _ hinv.pres
   · intro j hj
     have hp4f : p4 ≠ f := fun h => hfresh.notTable [] (by simp) (fun _ h => by cases h) (by simp [tblAt, h])
     by_cases hw : p4 = tbl ∧ j = i
